@@ -29,7 +29,10 @@ def _bencode(data: typing.Union[int, bytes, bytearray, str, list, tuple, dict]) 
 def _bdecode(data: bytes, start_index: int = 0) -> typing.Tuple[typing.Union[int, bytes, list, tuple, dict], int]:
     if data[start_index] == ord('i'):
         end_pos = data[start_index:].find(b'e') + start_index
-        return int(data[start_index + 1:end_pos]), end_pos + 1
+        digits = data[start_index + 1:end_pos]
+        if not digits[1 if digits[:1] == b'-' else 0:].isdigit():  # int() also takes '+1', ' 1' and '1_0'
+            raise DecodeError(f"invalid integer: {digits}")
+        return int(digits), end_pos + 1
     elif data[start_index] == ord('l'):
         start_index += 1
         decoded_list = []
@@ -47,10 +50,9 @@ def _bdecode(data: bytes, start_index: int = 0) -> typing.Tuple[typing.Union[int
         return decoded_dict, start_index + 1
     else:
         split_pos = data[start_index:].find(b':') + start_index
-        try:
-            length = int(data[start_index:split_pos])
-        except (ValueError, TypeError) as err:
-            raise DecodeError(err)
+        if not data[start_index:split_pos].isdigit():  # int() also takes '+1', ' 1', '-0' and '1_0'
+            raise DecodeError(f"invalid string length: {data[start_index:split_pos]}")
+        length = int(data[start_index:split_pos])
         start_index = split_pos + 1
         end_pos = start_index + length
         if length < 0 or end_pos > len(data):
